@@ -128,10 +128,12 @@ type Scenario struct {
 	Resthook []ResthookSpec
 	Template []J
 	Locs     bool
-	Flows    []*FlowSpec
-	Contacts []*ContactSpec
-	Vocab    []string // words router cases test for: personas answer with them
-	Markers  map[string]Marker
+	// GroupOrder is the order in which the asset document lists Groups
+	GroupOrder []int
+	Flows      []*FlowSpec
+	Contacts   []*ContactSpec
+	Vocab      []string // words router cases test for: personas answer with them
+	Markers    map[string]Marker
 }
 
 // Marker identifies a literal text of a definition: which item, language and property.
@@ -347,6 +349,8 @@ func (g *G) genAssets() {
 		t.End()
 	}
 
+	s.GroupOrder = g.perm("grouporder", len(s.Groups))
+
 	for i, n := 0, t.Weighted("nlabels", 2, 2, 1); i < n; i++ {
 		s.Labels = append(s.Labels, NamedSpec{UUID: g.uuid(kLabel), Name: []string{"Spam", "Important"}[i]})
 	}
@@ -485,7 +489,12 @@ func (s *Scenario) AssetsDoc() J {
 	}
 	doc["fields"] = fs
 	gs := []any{}
-	for _, gr := range s.Groups {
+	for k := range s.Groups {
+		// (the order in which a database lists groups is arbitrary)
+		gr := s.Groups[k]
+		if len(s.GroupOrder) == len(s.Groups) {
+			gr = s.Groups[s.GroupOrder[k]]
+		}
 		j := J{"uuid": gr.UUID, "name": gr.Name}
 		if gr.Query != "" {
 			j["query"] = gr.Query
